@@ -131,4 +131,46 @@ FloorDivRawAlgo(cx, tx, cy, ty, tz, rnd, ovf) ==
 ModRawAlgo(cx, tx, cy, ty, tz, rnd, ovf) ==
    LET a == Times2(cx, tz.f - tx.f)  b == Times2(cy, tz.f - ty.f)  e == MinOf(a.e, b.e)
    IN StoreAlgo(ModI(a.m * Pow2(a.e - e), b.m * Pow2(b.e - e)), e, tz, rnd, ovf, TRUE)
+
+(***************************** bitwise operators ****************************)
+\* utils.twos_complement_repr(val, nbits)
+TwosRepr(val, nbits) == IF val < 0 THEN Pow2(nbits) + val
+                        ELSE LET v == val % Pow2(nbits) IN IF AndNat(v, Pow2(nbits - 1)) # 0 THEN v - Pow2(nbits) ELSE v
+\* Fxp.__invert__: binary_invert = (1 << n_word) - 1 - x ; re-signed when signed; stored raw in a deep copy
+InvertAlgo(c, t) == LET inv == Pow2(t.w) - 1 - c
+                        r == IF t.s THEN TwosRepr(inv, t.w) ELSE inv
+                    IN ClipAlgo(r, ValMin(t), ValMax(t))
+\* Fxp.__and__/__or__/__xor__: (int(x) % 2^w) op (int(y) % 2^w), re-signed when x is signed, stored raw
+BitOpAlgo(op, cx, t, cy) ==
+   LET xm == cx % Pow2(t.w)  ym == cy % Pow2(t.w)
+       z == CASE op = "and" -> AndNat(xm, ym) [] op = "or" -> OrNat(xm, ym) [] op = "xor" -> XorNat(xm, ym)
+       r == IF t.s THEN TwosRepr(z, t.w) ELSE z
+   IN ClipAlgo(r, ValMin(t), ValMax(t))
+
+(********************************* shifts ***********************************)
+RECURSIVE LowBit(_)
+LowBit(n) == IF n % 2 = 1 THEN 0 ELSE 1 + LowBit(n \div 2)          \* index of the lowest set bit of n # 0
+\* utils.min_pow2 over the whole array (sequence of codes): lowest set bit of any element, NONE_ if all zero
+NONE_ == -1
+MinPow2(cs) == IF \A i \in DOMAIN cs : cs[i] = 0 THEN NONE_
+               ELSE SetMin({LowBit(AbsI(cs[i])) : i \in {j \in DOMAIN cs : cs[j] # 0}})
+\* __rshift__ in expand mode: the fraction grows by the bits that would fall off
+RShiftExpand(cs, t, n) ==
+   LET mp == MinPow2(cs)
+       ex == IF mp # NONE_ /\ n > mp THEN n - mp ELSE 0
+       tz == [s |-> t.s, w |-> t.w + ex, f |-> t.f + ex]
+   IN [fmt |-> tz, codes |-> [i \in DOMAIN cs |-> StoreAlgo(cs[i] \div Pow2(n - ex), 0, tz, "trunc", "saturate", TRUE).code]]
+\* int(np.max(np.ceil(np.log2(np.abs(val) + 0.5)))): bit length of the largest magnitude (-1 for all zeros)
+RECURSIVE BitLenNat(_)
+BitLenNat(n) == IF n = 0 THEN 0 ELSE 1 + BitLenNat(n \div 2)
+CeilLog2Half(c) == IF c = 0 THEN -1 ELSE BitLenNat(AbsI(c))
+LShiftExpand(cs, t, n) ==
+   LET mag == SetMax({CeilLog2Half(cs[i]) : i \in DOMAIN cs})
+       w2 == MaxOf(t.w, mag + Bit01(t.s) + n)
+       tz == [s |-> t.s, w |-> w2, f |-> t.f]
+   IN [fmt |-> tz, codes |-> [i \in DOMAIN cs |-> StoreAlgo(cs[i] * Pow2(n), 0, tz, "trunc", "saturate", TRUE).code]]
+\* trunc / keep: y = deepcopy; y.val = y.val >> n       (format unchanged, arithmetic shift)
+RShiftKeep(cs, t, n) == [fmt |-> t, codes |-> [i \in DOMAIN cs |-> cs[i] \div Pow2(n)]]
+\* trunc / keep <<: a FRESH default-config object of the same sizes stores val << n raw (so it always clamps)
+LShiftKeep(cs, t, n) == [fmt |-> t, codes |-> [i \in DOMAIN cs |-> StoreAlgo(cs[i] * Pow2(n), 0, t, "trunc", "saturate", TRUE).code]]
 =============================================================================
